@@ -1,21 +1,28 @@
 """C16 - concurrent lookups and renders behave like some sequential execution.
 
-corr  : the real TemplateLookup / LRUCache / Template / runtime under the deterministic scheduler of
-        harness/sched.py (one real thread per model thread, yielding at the model's scheduling points) against
-        the Lean interleaving model (lean/MakoModel/Conc/Model.lean, driver op `conc`) run on the SAME schedule:
-        the sequence of (thread, scheduling point) taken, the per-thread results (template id / content
-        version / compile stamp / served by the second-chance read? / exception kind / render output), the
-        construction count, the final collection (keys, ids, LRU stamps), deadlock and finished flags.
-        Schedules: ALL schedules of each scenario (fewest preemptions first; a scenario whose tree does not fit
-        the budget of the tier is cut there and reported as not exhaustive).
-oracle: no Lean.  Per get_template call: freshness under C14's rule w.r.t. the file as it was when the call
-        performed its first action; only documented exceptions; per scenario: (kind, version) results
-        linearisable against a sequential reference lookup; first requests compile once / same object; no thread
-        blocked at the end (deadlock / time-out / stray thread); mutex acquire/release pairing; LRU bound whenever
-        no thread is inside an LRU write; render output = the output of the same render run alone; adjust_uri /
-        renders with <%include> raise nothing (F11 and F-C16-2 were found here and are repaired in /repo).  The same
-        oracle runs on PCT-style random priority schedules with a scheduling point at every executed line of
-        mako code and every template-level call (depth 3 = preemption bound 2).
+corr  : streams `corr.sched.<scenario>` and `corr.corpus`: the real TemplateLookup / LRUCache / Template / runtime
+        under the deterministic scheduler of harness/sched.py (one real thread per model thread, yielding at the
+        model's scheduling points) against the Lean interleaving model (lean/MakoModel/Conc/Model.lean, driver op
+        `conc`) run on the SAME schedule: the sequence of (thread, scheduling point) taken, the per-thread results
+        (template id / content version / compile stamp / returned straight from the second-chance read (only with
+        filesystem_checks off)? / exception kind / render output / adjust_uri result), the construction count, the
+        final collection (keys, ids, LRU stamps), deadlock and finished flags.  Schedules: ALL schedules of each
+        scenario (fewest preemptions first; a scenario whose tree does not fit the tier's time share is cut there
+        and reported as not exhaustive).  `corr.corpus` replays the regression schedules of corpus/C16 first.
+oracle: no Lean.  Stream `oracle.sched` (every run of the corr streams), `oracle.explore.<scenario>` (scenarios that
+        are not modelled step by step: renders with <%include> on a bounded lookup, first renders with
+        <%namespace module=...> of a never-imported module whose body yields to the scheduler, the import lock being
+        an instrumented lock), `oracle.cache-lines` (first cached calls of a def with its own cache_region on a
+        back end that needs it, a point at every executed line of mako/cache.py, every stop line of one thread with
+        the other running to completion, both ways round), `oracle.pct-lines` (PCT random-priority schedules, depth 3,
+        a point at every executed line of mako code and every template-level call).  Checked per get_template call:
+        freshness under C14's rule w.r.t. the file as it was when the call performed its first action; only
+        documented exceptions; per run: (kind, version) results linearisable against a sequential reference lookup;
+        first requests compile once / same object; no thread blocked at the end (deadlock / time-out / stray thread);
+        mutex acquire/release pairing; LRU bound whenever no thread is inside an LRU write; render output = the
+        output of the same render run alone; adjust_uri raises nothing.
+Regenerated obligations (group Conc): every lazily initialised shared cell is stored complete; ModuleNamespace
+        obtains its module through the import machinery only.
 """
 from __future__ import annotations
 
@@ -30,17 +37,19 @@ from harness import sched as S
 from harness.common import ddmin
 
 RULE = ("scenarios = 2-3 thread programs over {get same/different URI, tick + modify + get, failing compile, "
-        "file appearing in an earlier directory, filesystem_checks off, LRU collection_size 1-2, render with "
-        "distinct contexts (cached def => first use of Template.cache), adjust_uri on a plain / bounded lookup, "
-        "renders with <%include> on a bounded lookup (oracle only), first cached calls of a def with its own cache_region "
-        "on a region-dependent back end with a point at every line of mako/cache.py (oracle only, every stop line of "
-        "one thread x the other running to completion), first renders with <%namespace module=...> of a fresh module "
-        "whose body yields between its definitions (oracle only; the import lock is an instrumented lock)} x every schedule at the model's scheduling "
-        "points (collection read/write/pop, os.stat, os.path.isfile, mutex acquire/release, Template construction, "
-        "LRU len/del, memoized_property miss, _uri_cache test/read/store), enumerated in order of increasing "
-        "preemption count until the tier's time share of the scenario is used up; plus PCT "
-        "random-priority schedules (depth 3) with a point at every executed line of mako code; a schedule is "
-        "non-trivial when it contains at least one preemption; distinct = distinct (scenario, executed schedule)")
+        "file appearing in an earlier directory, filesystem_checks off, LRU collection_size 1-2 (incl. a stale-check pop "
+        "racing _manage_size), render with distinct contexts (cached def => first use of Template.cache), adjust_uri on a "
+        "plain / bounded lookup} x every schedule at the model's scheduling points (collection read/write/pop, os.stat, "
+        "os.path.isfile, mutex acquire/release, Template construction, LRU len/del, memoized_property miss, _uri_cache "
+        "read/store), enumerated in order of increasing preemption count until the tier's time share of the scenario "
+        "is used up, each compared with the Lean model on the same schedule; oracle-only scenarios explored the same "
+        "way: renders with <%include> on a bounded / plain lookup, first renders with <%namespace module=...> of a "
+        "fresh module whose body yields between its definitions (import lock instrumented; 240 schedules, exhaustive); "
+        "first cached calls of a def with its own cache_region on a region-dependent back end with a point at every "
+        "executed line of mako/cache.py (every stop line of one thread x the other running to completion, both ways "
+        "round, exhaustive); the corpus/C16 regression schedules; plus PCT random-priority schedules (depth 3) with a "
+        "point at every executed line of mako code; a schedule is non-trivial when it contains at least one "
+        "preemption; distinct = distinct (scenario, executed schedule)")
 ASSUMPTIONS = [
     "atomicity of single dict operations, of sorted(dict.values()) and of attribute look-up is the GIL's "
     "(free-threaded builds out of scope)",
@@ -50,10 +59,16 @@ ASSUMPTIONS = [
     "Template.cache create two Cache objects that address the same stored values",
     "files are modified or created, never removed, while lookups run (C16's operations); put_string/put_template "
     "are not exercised concurrently",
+    "the per-module import lock of importlib is represented by an instrumented lock around `__import__` as seen by "
+    "mako.runtime (a thread importing a module whose first import another thread is still executing waits)",
+    "termination of a single get_template call while files keep being modified concurrently is not claimed",
 ]
 TRUSTED_EXTRA = [
-    "C16: harness/sched.py (token-passing scheduler, instrumented lock / collection / os probes / Template / "
-    "memoized_property); preemption inside a modelled atomic step is only sampled (line-level PCT schedules)",
+    "C16: harness/sched.py (token-passing scheduler; instrumented mutex / collection / _uri_cache / os probes / "
+    "Template / memoized_property / __import__ of mako.runtime; sys.settrace line-level mode); preemption inside a "
+    "modelled atomic step is only sampled (line-level PCT schedules, the mako/cache.py stop-line stream)",
+    "C16: tools/regen_conc.py (syntactic analysis: 'no statement mutates the object after it has been stored into the "
+    "shared container', 'self.module comes from __import__/import_module calls only, sys.modules is not read')",
 ]
 REGEN = ["Lookup", "Conc"]
 
@@ -98,7 +113,7 @@ def scenarios(tier):
         scn("diff3-lru1", [["g0"], ["g1"], ["g2"]], fs=[(0, 0, 1), (0, 1, 1), (0, 2, 1)], cap=1),
         scn("diff2-lru1-hit", [["g1", "g0"], ["g2"]], fs=[(0, 0, 1), (0, 1, 1), (0, 2, 1)], cap=1, prologue=["g0"]),
         scn("missing2", [["g5"], ["g0"]]),
-        scn("modify-get", [["g0"], ["t", "w0.0.1", "g0"]]),                       # F11 lived here
+        scn("modify-get", [["g0"], ["t", "w0.0.1", "g0"]]),                       # the stale second-chance hit (F11) was found here
         scn("modify-get-same-second", [["g0"], ["w0.0.1", "g0"]]),
         scn("reload2", [["g0"], ["g0"]], prologue=["g0", "t", "w0.0.1"]),           # double compile of a stale entry
         scn("reload-modify", [["g0"], ["t", "w0.0.1", "g0"]], prologue=["g0", "t", "w0.0.1"]),
@@ -115,7 +130,7 @@ def scenarios(tier):
         scn("render-modify", [["g0", r1], ["t", "w0.0.1", "g0", r2]], kind="cached", prologue=["g0"]),
         scn("lru-pop-race", [["g0"], ["g1"]], fs=[(0, 0, 1), (0, 1, 1)], cap=1, prologue=["g0", "t", "w0.0.1"]),
         scn("adjust-plain", [["a0", "a0"], ["a1", "a0"]]),
-        scn("adjust-lru1", [["a0", "a0"], ["a1"]], cap=1),                        # F-C16-2 lived here
+        scn("adjust-lru1", [["a0", "a0"], ["a1"]], cap=1),                        # the adjust_uri KeyError (F-C16-2) was found here
         scn("adjust-lru2", [["a0", "a1", "a0"], ["a2", "a3"]], cap=2),
     ]
     if not q:
@@ -702,15 +717,17 @@ def check_model(ctx, stream, pending):
 
 
 def explore_scenario(ctx, runner, sc, budget, deadline, seen_sites):
-    stream = "corr.sched." + sc["name"]
-    st = ctx.stream(stream, "corr")
+    modelled = sc.get("model", True)
+    stream = ("corr.sched." if modelled else "oracle.explore.") + sc["name"]
+    st = ctx.stream(stream, "corr" if modelled else "oracle")
     ost = ctx.stream("oracle.sched", "oracle")
     pending = []
 
     def run_one(prefix):
         o = runner.run(sc, S.Prefix(prefix))
         st["cases"] += 1
-        ost["cases"] += 1
+        if modelled:
+            ost["cases"] += 1           # the oracle runs on every modelled execution as well
         if o.sch.diverged:
             ctx.broke("scheduler:nondeterministic-replay", "%s prefix %r" % (sc["name"], prefix))
         p = S.preemptions(o.sch.decisions[o.sch.prologue_len:])
@@ -730,24 +747,23 @@ def explore_scenario(ctx, runner, sc, budget, deadline, seen_sites):
         if o.memo_double:
             ctx.branch("memo-cell-initialised-twice:" + ",".join(sorted(o.memo_double)))
         pending.append((sc, o))
-        for site, detail in oracle(ctx, sc, o, "oracle.sched"):
+        ostream = "oracle.sched" if modelled else stream
+        for site, detail in oracle(ctx, sc, o, ostream):
             ctx.branch("oracle-site:" + site)
             if (sc["name"], site) in seen_sites:
                 continue
             seen_sites.add((sc["name"], site))
             sched_min = shrink_schedule(runner, sc, [t for t, _ in o.trace], site)
             o2 = runner.run(sc, S.Follow(sched_min))
-            det = [d for s_, d in oracle(ctx, sc, o2, "oracle.sched") if s_ == site]
+            det = [d for s_, d in oracle(ctx, sc, o2, ostream) if s_ == site]
             case = case_of(sc, o2)
-            ctx.violation(site, case, det[0] if det else detail, "oracle.sched")
+            ctx.violation(site, case, det[0] if det else detail, ostream)
         return o.sch
 
     runs, exhausted = S.explore(run_one, budget, deadline=deadline)
     st["exhaustive"] = bool(exhausted)
-    if sc.get("model", True):
+    if modelled:
         check_model(ctx, stream, pending)
-    else:
-        st["kind"] = "oracle"
     return runs, exhausted
 
 
